@@ -114,6 +114,9 @@ def run(ctx, sm, facts):
         if facts.cls(cn, UART + rel, required=False) is None:
             ctx.error('C17', 'anchor %s not found' % cn)
             return
+    ctx.rule('C17.c', 'instance isolation: two links in one process do not share state (no class-level container / mutable default / memoised method in the UART files)')
+    from ..leafrules import shared_instance_state
+    shared_instance_state(ctx, facts, 'C17.c', [UART + 'serdes.py', UART + 'clock.py'])
     tier = ctx.tier
     summaries = {}
     rnd = random.Random(ctx.seed + 17)
